@@ -45,8 +45,15 @@ CFG = {
             "value encoded, 0..47 random bytes, the same behind a valid header; thorough adds 60 random datagrams of up to "
             "65507 bytes behind a valid header.  The oracle accepts `ok p` iff encode p = datagram, WF p and the cursor is at "
             "the end, and `err` iff the spec-side reference decoder (proved inverse of encode on WF) also rejects.  "
+            "VIEW TWINS (Driver/Views.lean, corpus views.case): every case above (of the datagrams above 4 kB every fourth) runs a second time as `vw <steps> <pre> <suf> <case>` - the datagram is a window strictly inside ONE larger "
+            "allocation pre ++ datagram ++ suf (a capture buffer), selected by a chain of RestrictView / RestrictViewFrom steps (the harness checks that the view shows exactly the window), and PacketP runs on that view; "
+            "bytes in front of the window cycled over 1, 7, 11, 2, 0, 13, 1000, 64, 5, 3 of them (a pcap-like record header and complete RTPS datagrams, or random bytes; period 16) x chain of restrictions (RestrictView; RestrictViewFrom; From then View; View then View with junk on both sides of the inner window; View then From; a View from 0 then From; three deep; period 7) x what lies behind the window (period 5). The unchanged code reports the cursor as a cursor of the view (= the datagram's length on acceptance) and reads a zero length field as `to the end of the VIEW`; "
+            "the expected output is literally that of the plain case, model and oracle are computed from the window's bytes alone (model of a view = model of its window: Parsley.C17.view_refines_copy); classes of rejected view cases carry "
+            "the prefix `view-`. What lies behind the window continues the datagram: behind a truncated datagram the rest of it, otherwise the byte completing a payload one byte short, complete sub-messages, a zero-length tail sub-message, "
+            "a whole second datagram, 2 / 20 / 300 plain bytes (swallowed by a zero length field if the end were the storage's). CUT family (view only): 4 well-formed datagrams (both byte orders, explicit and zero length fields, the magic "
+            "inside payloads) cut at EVERY byte, the rest behind the window; the raw oracle (spec reference decoder on the window) decides. Per tier: quick 19599 ordinary + 19101 view twins + 406 cuts, thorough 333209 + 325140 + 406.  "
             "Non-trivial = the datagram gets past the 20-byte header into the sub-message loop (enc with >=1 sub-message, "
-            "or raw of >= 21 bytes starting with the magic).",
+            "or raw of >= 21 bytes starting with the magic; a view case counts when there are bytes in front of or behind the window).",
     "trusted_base": COMMON_TB + [
         "modelled, not verified: ParseBuffer::{remaining, exact, extract, set_cursor_unsafe, peek, incr_cursor_unsafe} as "
         "list operations on a whole (unrestricted) buffer, with their asserts/slice panics kept as explicit panic outcomes "
